@@ -1,6 +1,6 @@
 /-
   C11 — a saved or aged Colang 2 conversation state continues exactly like the live one.
-  Property theorems only (helper lemmas: Lemmas/Serialize.lean, Lemmas/CleanUp.lean).
+  Property theorems only (helper lemmas: Lemmas/Serialize*.lean, Lemmas/CleanUp*.lean).
 
   What is carried by theorems here (function level, unbounded):
     * T1  `roundtrip_tree`, `encode_total_iff`, `roundtrip_lossy`  — `decode_from_dict ∘ json ∘ encode_to_dict` is the
@@ -8,10 +8,16 @@
     * T2  `roundtrip_dag` — the `refs` discipline over an abstract identity-labelled universe (post-order
           registration, lists transparent): decode ∘ encode rebuilds every shared graph;
     * `cleanup_*` — frame facts of `_clean_up_state`.
-  What rests on correspondence/oracle only (harness/props/C11.py, every run):
-    * T3  behaviour_preserved / cleanup_bisim: "the restored / aged state reacts to every later event
-          sequence exactly as the live one" — there is no whole-interpreter model in this check; the
-          claim is tested on the real interpreter at every cut point of generated histories.
+    * T1↔T2 `erase_commutes_with_encode`, `erase_commutes_with_roundtrip` — on tree-shaped values both encoders write the same
+          abstract encoding and the round-trip square commutes;
+    * restore, index component: `index_maps_roundtrip/_faithful`, `index_instances_roundtrip/_faithful`;
+    * T3 (phase 4), function by function over the whole-interpreter model `CoreVM` (C09's): the relation `Bisim.Aged` and the
+          `aged_*` theorems — see the status list in section "T3, the part that is proved".
+  What rests on correspondence/oracle (harness/props/C11.py, every run):
+    * T3 as a whole (`CleanupBisim`, stated below, NOT proved; `behaviour_preserved` for save/restore): "the restored / aged
+          state reacts to every later event sequence exactly as the live one" is tested on the real interpreter at every cut
+          point of generated histories, and through the public API (`api` cases); the hypotheses of the `aged_*` theorems
+          (`Aged`, `ActParentsKept`) are evaluated on the real states at run time.
 -/
 import NemoVerif.Lemmas.Serialize
 import NemoVerif.Lemmas.CleanUp
